@@ -9,6 +9,8 @@ Only property theorems live here; helper lemmas are in `GluonModel.Proofs.Infix`
 import GluonModel.Infix
 import GluonModel.Proofs.Infix
 import GluonModel.InfixTable
+import GluonModel.ExprGrammar
+import GluonModel.Proofs.ExprGrammar
 
 namespace GluonModel.Props.C08
 open GluonModel.Infix
@@ -143,5 +145,113 @@ example : stripPrefixL "#Int+".toList = "+".toList := by decide
 example : stripPrefixL "#Float<=".toList = "<=".toList := by decide
 
 end Builtin
+
+/-! ### First clause: printed expressions parse back to the same tree, spans delimit the text
+
+Model: `GluonModel.ExprGrammar` — the expression core of grammar.lalrpop (identifiers, int/string
+literals, `()`, parentheses and tuples, application, raw right-nested operator chains, lambda,
+`if/then/else`, `let x args = e in b`) over the token stream the layout pass delivers for the
+explicit one-line style.  `C` = tree + span of every token; `toks` = printer; `parseTop` =
+recursive-descent model of the grammar levels; `span` = `Sp<…>` + `shrink_hidden_spans`.
+Redundant parentheses are `paren` nodes (as in the real tree: 1-tuples); `Legal` says every
+sub-expression sits where the grammar admits its level, so `paren` may be put around ANY
+sub-expression (it is level 0). -/
+namespace Core
+open GluonModel.ExprGrammar
+
+/-- FULL statement wanted: for every abstract tree, every legal concrete style (explicit `in` or
+    layout, redundant parentheses, comments, blank lines), `parse (lex (layout (print e)))` is `e`.
+    PROVED (`_partial`): for the explicit one-line style at token level — every legal concrete
+    tree (any choice of redundant parentheses, any spans = any token-free trivia between tokens)
+    printed as the block-annotated token stream parses back to exactly that tree, every token
+    span included.  MISSING: that the layout pass produces exactly `toksTop c` for the printed
+    text (checked for every generated case by running C09's layout model in the driver and the
+    real layout in the harness: payload word `blocks-as-predicted`), the tokenizer, and the
+    indentation style. -/
+theorem parse_print_partial (c : C) (hl : Legal c) (h3 : lvl c ≤ 3) (fuel : Nat)
+    (hf : fuelFor c ≤ fuel) : parseTop fuel (toksTop c) = some c :=
+  Proofs.parse_print c hl h3 fuel hf
+
+/-- Parentheses are transparent: the abstract tree read off the parse result is the abstract tree
+    that was printed, whatever redundant parentheses the style added. -/
+theorem parse_print_erase (c : C) (hl : Legal c) (h3 : lvl c ≤ 3) :
+    (parseTop (fuelFor c) (toksTop c)).map erase = some (erase c) := by
+  rw [parse_print_partial c hl h3 _ (Nat.le_refl _)]; rfl
+
+/-- Redundant parentheses may be put around any sub-expression at any position. -/
+theorem paren_anywhere (l r : Span) (c : C) (hl : Legal c) :
+    Legal (.paren l c r) ∧ lvl (.paren l c r) = 0 ∧
+      erase (.paren l c r) = (if isComma c then .tuple (erase c) else erase c) :=
+  ⟨hl, rfl, rfl⟩
+
+/-- The span the parser reports for a node (`Sp<…>` then `shrink_hidden_spans`) is exactly the
+    extent of the node's own printed tokens: start of its first, end of its last real token; the
+    hidden block tokens and everything after the last sub-expression are excluded, the node's
+    own parentheses (`paren`) included. -/
+theorem spans_delimit (c : C) : extent (toks c) = some (span c) :=
+  Proofs.spans_delimit c
+
+/-- Operator chains (reduction of the infix case to `reparse_complete`): an operator tree `t`
+    grouped as the fixities dictate, over application-level operands, printed WITHOUT
+    parentheses, (1) prints the same tokens as its in-order chain, (2) is parsed by the grammar
+    to the right-nested raw chain `ofChain … (flatten t)`, and (3) `reparse` of that chain
+    (infix.rs, run by `Reparser` on every raw chain) restores exactly `t`.
+    Not modelled: `Reparser`'s walk over the tree that feeds each raw chain to `reparse`. -/
+theorem parse_print_infix (arg : Nat → C) (harg : ∀ a, Legal (arg a) ∧ lvl (arg a) ≤ 1)
+    (t : Infix.Tree) (hw : WF t) :
+    toks (ofTree arg t) = toks (ofChain arg (flatten t).1 (flatten t).2) ∧
+    parseTop (fuelFor (ofChain arg (flatten t).1 (flatten t).2)) (toksTop (ofTree arg t)) =
+      some (ofChain arg (flatten t).1 (flatten t).2) ∧
+    reparse (flatten t).1 (flatten t).2 = .ok t := by
+  have e : toks (ofTree arg t) = toks (ofChain arg (flatten t).1 (flatten t).2) := by
+    rw [Proofs.toks_ofTree, Proofs.toks_ofChain]
+  have hl := Proofs.legal_ofChain arg harg (flatten t).1 (flatten t).2
+  refine ⟨e, ?_, reparse_complete t hw⟩
+  have : toksTop (ofTree arg t) = toksTop (ofChain arg (flatten t).1 (flatten t).2) := by
+    simp only [toksTop, e]
+  rw [this]
+  exact parse_print_partial _ hl.1 (by omega) _ (Nat.le_refl _)
+
+/-! Non-vacuity -/
+example : WF (.node (.node (.leaf 0) (opL "+" 6) (.node (.leaf 1) (opL "*" 7) (.leaf 2))) (opL "+" 6) (.leaf 3)) := by
+  decide
+example : ∀ a, Legal ((fun i => C.int i ⟨0, 0⟩) a) ∧ lvl ((fun i => C.int i ⟨0, 0⟩) a) ≤ 1 := by
+  intro a; exact ⟨trivial, by simp [lvl]⟩
+
+def s (a b : Nat) : Span := ⟨a, b⟩
+/-- `let f x = (x) in if f 1 then \y -> y else (a, b)` with spans -/
+def sample : C :=
+  .letIn (s 1 4) ("f", s 5 6) [("x", s 7 8)] (s 9 10) (.paren (s 11 12) (.ident "x" (s 12 13)) (s 13 14))
+    (s 15 17)
+    (.ite (s 18 20) (.app (.ident "f" (s 21 22)) (.int 1 (s 23 24))) (s 25 29)
+      (.lam (s 30 31) [("y", s 31 32)] (s 33 35) (.ident "y" (s 36 37))) (s 38 42)
+      (.paren (s 43 44) (.comma (.ident "a" (s 44 45)) (s 45 46) (.ident "b" (s 47 48))) (s 48 49)))
+
+/-- `if a then let x = 1 in x else if b then (\\z -> z) c else d` (else-if: no block after `else`) -/
+def sample2 : C :=
+  .ite (s 1 3) (.ident "a" (s 4 5)) (s 6 10)
+    (.letIn (s 11 14) ("x", s 15 16) [] (s 17 18) (.int 1 (s 19 20)) (s 21 23) (.ident "x" (s 24 25)))
+    (s 26 30)
+    (.ite (s 31 33) (.ident "b" (s 34 35)) (s 36 40)
+      (.app (.paren (s 41 42) (.lam (s 42 43) [("z", s 43 44)] (s 45 47) (.ident "z" (s 48 49))) (s 49 50))
+        (.ident "c" (s 51 52))) (s 53 57) (.ident "d" (s 58 59)))
+
+/-- FULL statement wanted (`layout_style_same_tokens`): for every legal `c` laid out on one line
+    (and for `let` blocks in the indentation style) the layout pass emits exactly the kinds of
+    `toksTop c`.  PROVED here only for two concrete trees (by evaluation of C09's layout model);
+    for every GENERATED tree it is checked at run time by the driver (`blocks-as-predicted`).
+    MISSING: the general proof (an invariant of the layout state machine over printed trees). -/
+theorem layout_explicit_same_tokens_instances :
+    layoutKinds sample 49 = ((toksTop sample).map (fun t => kindOf t.t), .ok) ∧
+    layoutKinds sample2 59 = ((toksTop sample2).map (fun t => kindOf t.t), .ok) := by
+  constructor <;> decide +kernel
+
+example : Legal sample2 ∧ lvl sample2 ≤ 3 := by decide
+example : Legal sample ∧ lvl sample ≤ 3 := by decide
+example : parseTop (fuelFor sample) (toksTop sample) = some sample := by decide +kernel
+example : span sample = ⟨1, 49⟩ := rfl
+example : extent (toks sample) = some ⟨1, 49⟩ := by decide +kernel
+
+end Core
 
 end GluonModel.Props.C08
